@@ -10,6 +10,7 @@
 #include <stdlib.h>
 #include <string.h>
 #include <m4ri/m4ri.h>
+#include <m4ri/mmc.h>
 
 /* harness-side allocation that the allocator wrapper does not count */
 void *vx_malloc(size_t n);
